@@ -60,9 +60,10 @@ VARIABLES host, mut,
           wres,        \* what the last wait returned: "ready" | "timedout" | "none"
           fin,         \* [Tasks -> BOOLEAN] task finished
           done,        \* the future given to execute() is ready
-          skipped      \* the last Proactor::poll returned after poll_blocking and left completions undrained
+          skipped,     \* the last Proactor::poll returned after poll_blocking and left completions undrained
+          hasC         \* polling driver: has_completed, read from the completed channel at the start of poll
 
-xvars == <<host, mut, xpc, opSt, opBatch, tmSt, jobSt, jobTaken, got, regSig, hEdge, hReady, tmo, wres, fin, done, skipped>>
+xvars == <<host, mut, xpc, opSt, opBatch, tmSt, jobSt, jobTaken, got, regSig, hEdge, hReady, tmo, wres, fin, done, skipped, hasC>>
 allvars == <<vars, xvars>>
 
 Srcs == Ops \cup Timers \cup Jobs
@@ -77,18 +78,18 @@ XInit == /\ Init
          /\ host \in Hosts /\ mut \in Muts /\ xpc = "run"
          /\ opSt = [o \in Ops |-> "new"] /\ opBatch = {}
          /\ tmSt = [t \in Timers |-> "new"]
-         /\ jobSt = [j \in Jobs |-> IF Owner[j] = "none" THEN "running" ELSE "new"]
+         /\ jobSt = [j \in Jobs |-> "new"]
          /\ jobTaken = [j \in Jobs |-> FALSE]
          /\ got = [s \in Srcs |-> FALSE]
          /\ regSig = FALSE /\ hEdge = FALSE /\ hReady = FALSE /\ tmo = "none" /\ wres = "none"
-         /\ fin = [t \in Tasks |-> FALSE] /\ done = FALSE /\ skipped = FALSE
+         /\ fin = [t \in Tasks |-> FALSE] /\ done = FALSE /\ skipped = FALSE /\ hasC = FALSE
 
 \* ------------------------------------------------------------------ lifting Wakeup's actions
 \* every completion entry posted (Wakeup counts the notifier's in cq) signals the registered eventfd and is an
 \* edge for the host
 SigCq == /\ regSig' = (regSig \/ (Driver = "iour" /\ cq' > cq))
          /\ hEdge' = (hEdge \/ cq' > cq)
-XRestE == <<host, mut, xpc, opSt, opBatch, tmSt, jobSt, jobTaken, got, hReady, tmo, wres, fin, done, skipped>>
+XRestE == <<host, mut, xpc, opSt, opBatch, tmSt, jobSt, jobTaken, got, hReady, tmo, wres, fin, done, skipped, hasC>>
 \* an action of another thread / of the kernel
 LiftE(A) == A /\ SigCq /\ UNCHANGED XRestE
 \* a segment of the runtime thread that touches nothing of this module
@@ -116,7 +117,9 @@ Completed(s) == IF s \in Ops THEN opSt[s] = "done" ELSE IF s \in Timers THEN tmS
 XPollEffects(T) ==
   /\ opSt' = [o \in Ops |-> IF Owner[o] = T /\ opSt[o] = "new" THEN (IF Driver = "iour" THEN "sq" ELSE "kernel") ELSE opSt[o]]
   /\ tmSt' = [t \in Timers |-> IF Owner[t] = T /\ tmSt[t] = "new" THEN "armed" ELSE tmSt[t]]
-  /\ jobSt' = [j \in Jobs |-> IF Owner[j] = T /\ jobSt[j] = "new" THEN "running" ELSE jobSt[j]]
+  \* (a job nobody waits for: the main future dispatches it in its first poll and lets go of it)
+  /\ jobSt' = [j \in Jobs |-> IF (Owner[j] = T \/ (T = "main" /\ Owner[j] = "none")) /\ jobSt[j] = "new"
+                                 THEN "running" ELSE jobSt[j]]
   /\ got' = [s \in Srcs |-> got[s] \/ (Owner[s] = T /\ Completed(s))]
 \* T has everything it waits for (evaluated on the primed state of a poll)
 TReady(T) == /\ \A s \in Srcs : Owner[s] = T => got'[s]
@@ -128,7 +131,7 @@ XPollMain ==
   /\ xpc = "run" /\ ~done /\ RPollMain /\ SigCq
   /\ XPollEffects("main")
   /\ done' = TReady("main")
-  /\ UNCHANGED <<host, mut, xpc, opBatch, jobTaken, hReady, tmo, wres, fin, skipped>>
+  /\ UNCHANGED <<host, mut, xpc, opBatch, jobTaken, hReady, tmo, wres, fin, skipped, hasC>>
 
 \* [x.task] Task::run of the head of the hot queue; a finished task is not polled any more
 XRunTask ==
@@ -139,7 +142,7 @@ XRunTask ==
          ELSE /\ XPollEffects(t)
               /\ fin' = [fin EXCEPT ![t] = TReady(t)]
               /\ xpc' = IF TReady(t) THEN "joinwake" ELSE "run"
-  /\ UNCHANGED <<host, mut, opBatch, jobTaken, hReady, tmo, wres, done, skipped>>
+  /\ UNCHANGED <<host, mut, opBatch, jobTaken, hReady, tmo, wres, done, skipped, hasC>>
 
 \* the finished task wakes its JoinHandle, which the main future holds: the driver's waker
 XJoinWake ==
@@ -147,11 +150,11 @@ XJoinWake ==
   /\ LocalWake(TRUE) /\ SigCq
   /\ xpc' = "run"
   /\ UNCHANGED <<hot, pcR>> /\ UNCHANGED WRest
-  /\ UNCHANGED <<host, mut, opSt, opBatch, tmSt, jobSt, jobTaken, got, hReady, tmo, wres, fin, done, skipped>>
+  /\ UNCHANGED <<host, mut, opSt, opBatch, tmSt, jobSt, jobTaken, got, hReady, tmo, wres, fin, done, skipped, hasC>>
 
 \* ------------------------------------------------------------------ run(): the rest of the tick is Wakeup's
 SubmitOps == opSt' = [o \in Ops |-> IF opSt[o] = "sq" THEN "kernel" ELSE opSt[o]]
-XRestSub == <<host, mut, xpc, opBatch, tmSt, jobSt, jobTaken, got, hReady, tmo, wres, fin, done, skipped>>
+XRestSub == <<host, mut, xpc, opBatch, tmSt, jobSt, jobTaken, got, hReady, tmo, wres, fin, done, skipped, hasC>>
 
 \* ------------------------------------------------------------------ [drv.flush] remaining_tasks |= flush()
 Flushing == mut # "noFlush" /\ ~done
@@ -161,13 +164,13 @@ XFlushLeave == LiftR(RFlushLeave)
 \* [awake.reset] inside flush; the loop goes on to choose the timeout
 XFlushReset == /\ (pcR = "flush" => Flushing) /\ xpc = "run" /\ RFlushReset /\ SigCq
                /\ xpc' = "decide"
-               /\ UNCHANGED <<host, mut, opSt, opBatch, tmSt, jobSt, jobTaken, got, hReady, tmo, wres, fin, done, skipped>>
+               /\ UNCHANGED <<host, mut, opSt, opBatch, tmSt, jobSt, jobTaken, got, hReady, tmo, wres, fin, done, skipped, hasC>>
 \* control "noFlush": drive() does not call flush at all
 XNoFlush == /\ xpc = "run" /\ pcR = "flush" /\ mut = "noFlush" /\ ~done
             /\ pcR' = "extWait" /\ extNotified' = FALSE /\ xpc' = "decide"
             /\ UNCHANGED <<flag, efd, armed, sqNotif, needPush, cq, batch, owed, syncq, pending, sched, scheduling, hot, reg,
                            cond, seen, pcW, wNotified, needWait, drained, inKernel, lastPopped, lastOv>>
-            /\ UNCHANGED <<host, mut, opSt, opBatch, tmSt, jobSt, jobTaken, got, regSig, hEdge, hReady, tmo, wres, fin, done, skipped>>
+            /\ UNCHANGED <<host, mut, opSt, opBatch, tmSt, jobSt, jobTaken, got, regSig, hEdge, hReady, tmo, wres, fin, done, skipped, hasC>>
 
 \* ------------------------------------------------------------------ the adapter
 AU == <<flag, efd, armed, sqNotif, needPush, cq, batch, owed, syncq, pending, sched, scheduling, hot, reg,
@@ -186,7 +189,7 @@ ADecide ==
             ELSE "none"
   /\ xpc' = "wait"
   /\ UNCHANGED pcR /\ UNCHANGED AU
-  /\ UNCHANGED <<host, mut, opSt, opBatch, tmSt, jobSt, jobTaken, got, regSig, hEdge, hReady, wres, fin, done, skipped>>
+  /\ UNCHANGED <<host, mut, opSt, opBatch, tmSt, jobSt, jobTaken, got, regSig, hEdge, hReady, wres, fin, done, skipped, hasC>>
 
 \* [x.wait.enter] first poll of Adapter::wait(timeout).
 \*   tokio:   AsyncFd::readable() is ready iff the cached readiness is set; clear_ready follows at once (the tick
@@ -203,7 +206,7 @@ AWaitPoll ==
          THEN wres' = "timedout" /\ xpc' = "clear" /\ UNCHANGED hReady
          ELSE xpc' = "parked" /\ UNCHANGED <<hReady, wres>>
   /\ UNCHANGED pcR /\ UNCHANGED AU
-  /\ UNCHANGED <<host, mut, opSt, opBatch, tmSt, jobSt, jobTaken, got, regSig, hEdge, tmo, fin, done, skipped>>
+  /\ UNCHANGED <<host, mut, opSt, opBatch, tmSt, jobSt, jobTaken, got, regSig, hEdge, tmo, fin, done, skipped, hasC>>
 
 \* the host's reactor harvests its poller.  tokio registers edge-triggered: the kernel reports the queued
 \* notification only if the descriptor is still readable when the reactor looks (ep_item_poll)
@@ -212,7 +215,7 @@ HTurn ==
   /\ (AnyTurn \/ xpc = "parked")
   /\ hEdge' = FALSE /\ hReady' = (hReady \/ Level)
   /\ UNCHANGED vars
-  /\ UNCHANGED <<host, mut, xpc, opSt, opBatch, tmSt, jobSt, jobTaken, got, regSig, tmo, wres, fin, done, skipped>>
+  /\ UNCHANGED <<host, mut, xpc, opSt, opBatch, tmSt, jobSt, jobTaken, got, regSig, tmo, wres, fin, done, skipped, hasC>>
 
 \* the parked wait returns: readiness (tokio: cached bit, futures: the reactor sees the descriptor readable) ...
 AWakeReady ==
@@ -220,22 +223,22 @@ AWakeReady ==
   /\ IF host = "tokio" THEN hReady ELSE Level
   /\ hReady' = FALSE /\ wres' = "ready" /\ xpc' = "clear"
   /\ UNCHANGED pcR /\ UNCHANGED AU
-  /\ UNCHANGED <<host, mut, opSt, opBatch, tmSt, jobSt, jobTaken, got, regSig, hEdge, tmo, fin, done, skipped>>
+  /\ UNCHANGED <<host, mut, opSt, opBatch, tmSt, jobSt, jobTaken, got, regSig, hEdge, tmo, fin, done, skipped, hasC>>
 \* ... or the host's timer (armed with current_timeout(), the earliest deadline of the wheel)
 TimeoutNow == tmo = "zero" \/ (tmo = "timer" /\ \E t \in Timers : tmSt[t] = "due")
 AWakeTimeout ==
   /\ xpc = "parked" /\ TimeoutNow
   /\ wres' = "timedout" /\ xpc' = "clear"
   /\ UNCHANGED pcR /\ UNCHANGED AU
-  /\ UNCHANGED <<host, mut, opSt, opBatch, tmSt, jobSt, jobTaken, got, regSig, hEdge, hReady, tmo, fin, done, skipped>>
+  /\ UNCHANGED <<host, mut, opSt, opBatch, tmSt, jobSt, jobTaken, got, regSig, hEdge, hReady, tmo, fin, done, skipped, hasC>>
 
 \* [x.clear] Adapter::clear(): read the registered eventfd (nothing to do on the polling driver); then poll_with(ZERO)
 AClear ==
   /\ xpc = "clear" /\ pcR = "extWait"
   /\ regSig' = (regSig /\ mut = "clearAfterPoll")
-  /\ pcR' = "reset" /\ xpc' = "run"
+  /\ pcR' = "reset" /\ xpc' = "pollb"
   /\ UNCHANGED AU
-  /\ UNCHANGED <<host, mut, opSt, opBatch, tmSt, jobSt, jobTaken, got, hEdge, hReady, tmo, wres, fin, done, skipped>>
+  /\ UNCHANGED <<host, mut, opSt, opBatch, tmSt, jobSt, jobTaken, got, hEdge, hReady, tmo, wres, fin, done, skipped, hasC>>
 
 \* ------------------------------------------------------------------ [drv.poll] poll_with(ZERO) = Proactor::poll(ZERO) + timers
 JobOwners(S) == {Owner[j] : j \in S}
@@ -243,16 +246,24 @@ JobOwners(S) == {Owner[j] : j \in S}
 \* io_uring: `if self.poll_blocking() { return Ok(()) }` - the entries of the completed channel are delivered
 \* (set_result wakes the owner) and poll returns: no reset, no submit, no set_awake, the completion queue is NOT drained
 XPollBlocking ==
-  /\ xpc = "run" /\ pcR = "reset" /\ Driver = "iour" /\ SentUntaken # {}
+  /\ xpc = "pollb" /\ pcR = "reset" /\ Driver = "iour" /\ SentUntaken # {}
   /\ jobTaken' = [j \in Jobs |-> jobTaken[j] \/ j \in SentUntaken]
   /\ WakeOwners(JobOwners(SentUntaken)) /\ SigCq
-  /\ IF DrainAfterBlocking THEN UNCHANGED <<pcR, xpc>>                  \* hypothetical repair: go on with the poll
-                                    ELSE pcR' = "pollMain" /\ xpc' = "timers"
+  /\ IF DrainAfterBlocking THEN pcR' = pcR /\ xpc' = "run"             \* hypothetical repair: go on with the poll
+                           ELSE pcR' = "pollMain" /\ xpc' = "timers"
   /\ skipped' = (~DrainAfterBlocking /\ (cq' > 0 \/ \E o \in Ops : opSt[o] = "cqe"))
   /\ UNCHANGED WRest
-  /\ UNCHANGED <<host, mut, opSt, opBatch, tmSt, jobSt, got, hReady, tmo, wres, fin, done>>
+  /\ UNCHANGED <<host, mut, opSt, opBatch, tmSt, jobSt, got, hReady, tmo, wres, fin, done, hasC>>
 
-XReset == (Driver = "iour" => SentUntaken = {}) /\ LiftR(RReset)
+\* nothing in the completed channel (io_uring) / polling driver: has_completed is read here, before the reset
+XPollNoBlocking ==
+  /\ xpc = "pollb" /\ pcR = "reset" /\ (Driver = "iour" => SentUntaken = {})
+  /\ hasC' = (Driver = "poll" /\ SentUntaken # {})
+  /\ xpc' = "run"
+  /\ UNCHANGED vars
+  /\ UNCHANGED <<host, mut, opSt, opBatch, tmSt, jobSt, jobTaken, got, regSig, hEdge, hReady, tmo, wres, fin, done, skipped>>
+\* [awake.reset]
+XReset == LiftR(RReset)
 XArm   == LiftR(RArm)
 XEnter == xpc = "run" /\ REnter /\ SigCq /\ SubmitOps /\ UNCHANGED XRestSub
 
@@ -263,41 +274,48 @@ XLeaveTimedOut ==
   /\ xpc = "run" /\ pcR = "leave" /\ TimedOutCase
   /\ pcR' = "pollMain" /\ xpc' = "timers"
   /\ UNCHANGED AU
-  /\ UNCHANGED <<host, mut, opSt, opBatch, tmSt, jobSt, jobTaken, got, regSig, hEdge, hReady, tmo, wres, fin, done>>
+  /\ UNCHANGED <<host, mut, opSt, opBatch, tmSt, jobSt, jobTaken, got, regSig, hEdge, hReady, tmo, wres, fin, done, hasC>>
   /\ skipped' = FALSE
 \* [drv.wait.leave]; polling driver: Poller::wait returned the pending events
 XLeave ==
   /\ xpc = "run" /\ ~TimedOutCase /\ RLeave /\ SigCq
   /\ opBatch' = IF Driver = "poll" THEN {o \in Ops : opSt[o] = "cqe"} ELSE opBatch
-  /\ UNCHANGED <<host, mut, xpc, opSt, tmSt, jobSt, jobTaken, got, hReady, tmo, wres, fin, done, skipped>>
+  /\ UNCHANGED <<host, mut, xpc, opSt, tmSt, jobSt, jobTaken, got, hReady, tmo, wres, fin, done, skipped, hasC>>
 \* [awake.set] first; io_uring: poll_entries starts iterating a snapshot of the completion queue;
 \* polling driver (external mode): Wakeup returns to the loop from here - the events are handled first
 XAwake1 ==
   /\ xpc = "run" /\ RAwake1 /\ SigCq
   /\ opBatch' = IF Driver = "iour" THEN {o \in Ops : opSt[o] = "cqe"} ELSE opBatch
   /\ xpc' = IF Driver = "poll" THEN (IF opBatch # {} \/ SentUntaken # {} THEN "entries" ELSE "timers") ELSE "run"
-  /\ UNCHANGED <<host, mut, opSt, tmSt, jobSt, jobTaken, got, hReady, tmo, wres, fin, done>>
+  /\ UNCHANGED <<host, mut, opSt, tmSt, jobSt, jobTaken, got, hReady, tmo, wres, fin, done, hasC>>
   /\ skipped' = FALSE
 XClearN == LiftR(RClear)
 \* the operation entries of the snapshot: Entry::notify -> set_result -> the owner's waker.
-\* polling driver: also the entries of the completed channel (poll_completed)
+\* polling driver: no event = poll_completed (everything in the channel now) and return; events = poll_completed only
+\* if has_completed was set at the start, the events, then a second set_awake (with_events)
 EntriesHere == \/ (Driver = "iour" /\ xpc = "run" /\ pcR = "awake2" /\ opBatch # {})
                \/ (Driver = "poll" /\ xpc = "entries")
 XEntries ==
   /\ EntriesHere
-  /\ LET js == IF Driver = "poll" THEN SentUntaken ELSE {} IN
+  /\ LET js == IF Driver = "poll" /\ (opBatch = {} \/ hasC) THEN SentUntaken ELSE {} IN
        /\ opSt' = [o \in Ops |-> IF o \in opBatch THEN "done" ELSE opSt[o]]
        /\ jobTaken' = [j \in Jobs |-> jobTaken[j] \/ j \in js]
        /\ WakeOwners({Owner[o] : o \in opBatch} \cup JobOwners(js)) /\ SigCq
   /\ opBatch' = {}
-  /\ xpc' = IF Driver = "poll" THEN "timers" ELSE "run"
+  /\ xpc' = IF Driver = "poll" THEN (IF opBatch # {} THEN "pset2" ELSE "timers") ELSE "run"
   /\ UNCHANGED pcR /\ UNCHANGED WRest
-  /\ UNCHANGED <<host, mut, tmSt, jobSt, got, hReady, tmo, wres, fin, done, skipped>>
+  /\ UNCHANGED <<host, mut, tmSt, jobSt, got, hReady, tmo, wres, fin, done, skipped, hasC>>
+\* polling driver, [awake.set] second: with_events "clears the notification state to avoid empty loops"
+XPollSet2 ==
+  /\ xpc = "pset2"
+  /\ flag' = AWAKE /\ xpc' = "timers"
+  /\ UNCHANGED <<efd, cq, owed, hot, pcR>> /\ UNCHANGED WRest
+  /\ UNCHANGED <<host, mut, opSt, opBatch, tmSt, jobSt, jobTaken, got, regSig, hEdge, hReady, tmo, wres, fin, done, skipped, hasC>>
 \* [awake.set] second, end of Proactor::poll
 XAwake2 ==
   /\ xpc = "run" /\ opBatch = {} /\ RAwake2 /\ SigCq
   /\ xpc' = "timers"
-  /\ UNCHANGED <<host, mut, opSt, opBatch, tmSt, jobSt, jobTaken, got, hReady, tmo, wres, fin, done, skipped>>
+  /\ UNCHANGED <<host, mut, opSt, opBatch, tmSt, jobSt, jobTaken, got, hReady, tmo, wres, fin, done, skipped, hasC>>
 \* timer_runtime.wake(): every entry of the wheel whose deadline has passed is removed and its waker invoked.
 \* control "clearAfterPoll": the adapter's clear() comes here instead of before poll_with
 XTimers ==
@@ -309,7 +327,7 @@ XTimers ==
   /\ regSig' = IF mut = "clearAfterPoll" THEN FALSE ELSE (regSig \/ (Driver = "iour" /\ cq' > cq))
   /\ xpc' = "run"
   /\ UNCHANGED pcR /\ UNCHANGED WRest
-  /\ UNCHANGED <<host, mut, opSt, opBatch, jobSt, jobTaken, got, hReady, tmo, wres, fin, done, skipped>>
+  /\ UNCHANGED <<host, mut, opSt, opBatch, jobSt, jobTaken, got, hReady, tmo, wres, fin, done, skipped, hasC>>
 
 \* ------------------------------------------------------------------ environment
 \* the descriptor of an operation becomes ready: the kernel posts its completion entry (io_uring: the registered
@@ -319,33 +337,33 @@ KOpReady(o) ==
   /\ opSt' = [opSt EXCEPT ![o] = "cqe"]
   /\ regSig' = (regSig \/ Driver = "iour") /\ hEdge' = TRUE
   /\ UNCHANGED vars
-  /\ UNCHANGED <<host, mut, xpc, opBatch, tmSt, jobSt, jobTaken, got, hReady, tmo, wres, fin, done, skipped>>
+  /\ UNCHANGED <<host, mut, xpc, opBatch, tmSt, jobSt, jobTaken, got, hReady, tmo, wres, fin, done, skipped, hasC>>
 \* a deadline passes
 TimeDue(t) ==
   /\ tmSt[t] = "armed"
   /\ tmSt' = [tmSt EXCEPT ![t] = "due"]
   /\ UNCHANGED vars
-  /\ UNCHANGED <<host, mut, xpc, opSt, opBatch, jobSt, jobTaken, got, regSig, hEdge, hReady, tmo, wres, fin, done, skipped>>
+  /\ UNCHANGED <<host, mut, xpc, opSt, opBatch, jobSt, jobTaken, got, regSig, hEdge, hReady, tmo, wres, fin, done, skipped, hasC>>
 \* pool thread (push_blocking's closure): completed.send(entry) ...
 JSend(j) ==
   /\ jobSt[j] = "running"
   /\ jobSt' = [jobSt EXCEPT ![j] = "sent"]
   /\ UNCHANGED vars
-  /\ UNCHANGED <<host, mut, xpc, opSt, opBatch, tmSt, jobTaken, got, regSig, hEdge, hReady, tmo, wres, fin, done, skipped>>
+  /\ UNCHANGED <<host, mut, xpc, opSt, opBatch, tmSt, jobTaken, got, regSig, hEdge, hReady, tmo, wres, fin, done, skipped, hasC>>
 \* ... waker.wake(): [awake.wake] fetch_or(NOTIFIED) ...
 JFetchOr(j) ==
   /\ jobSt[j] = "sent"
   /\ flag' = OrN(flag)
   /\ jobSt' = [jobSt EXCEPT ![j] = IF flag = IDLE THEN "write" ELSE "woke"]
   /\ UNCHANGED <<efd, cq, owed, hot, pcR>> /\ UNCHANGED WRest
-  /\ UNCHANGED <<host, mut, xpc, opSt, opBatch, tmSt, jobTaken, got, regSig, hEdge, hReady, tmo, wres, fin, done, skipped>>
+  /\ UNCHANGED <<host, mut, xpc, opSt, opBatch, tmSt, jobTaken, got, regSig, hEdge, hReady, tmo, wres, fin, done, skipped, hasC>>
 \* ... [notify.write] iff the flag was IDLE
 JWrite(j) ==
   /\ jobSt[j] = "write"
   /\ WriteEffects /\ SigCq
   /\ jobSt' = [jobSt EXCEPT ![j] = "woke"]
   /\ UNCHANGED <<flag, hot, pcR>> /\ UNCHANGED WRest
-  /\ UNCHANGED <<host, mut, xpc, opSt, opBatch, tmSt, jobTaken, got, hReady, tmo, wres, fin, done, skipped>>
+  /\ UNCHANGED <<host, mut, xpc, opSt, opBatch, tmSt, jobTaken, got, hReady, tmo, wres, fin, done, skipped, hasC>>
 JStep(j) == JSend(j) \/ JFetchOr(j) \/ JWrite(j)
 
 \* ------------------------------------------------------------------ the whole
@@ -355,8 +373,8 @@ Terminated == Finished /\ UNCHANGED allvars
 XRStep == \/ XPollMain \/ LiftR(RDrainLoad) \/ LiftR(RPopped) \/ LiftR(RDrainSub) \/ XRunTask \/ XJoinWake
           \/ XFlushArm \/ XFlush \/ XFlushLeave \/ XFlushReset \/ XNoFlush
           \/ ADecide \/ AWaitPoll \/ AWakeReady \/ AWakeTimeout \/ AClear
-          \/ XPollBlocking \/ XReset \/ XArm \/ XEnter \/ XLeaveTimedOut \/ XLeave \/ XAwake1 \/ XClearN \/ XEntries
-          \/ XAwake2 \/ XTimers
+          \/ XPollBlocking \/ XPollNoBlocking \/ XReset \/ XArm \/ XEnter \/ XLeaveTimedOut \/ XLeave \/ XAwake1 \/ XClearN \/ XEntries
+          \/ XAwake2 \/ XPollSet2 \/ XTimers
 XWStep(w) == LiftE(WStep(w))
 XKPost == LiftE(KPost)
 XEnv == \/ XKPost \/ HTurn
@@ -375,7 +393,7 @@ XFairSpec == /\ XSpec
              /\ \A j \in Jobs : WF_allvars(JStep(j))
 
 \* ------------------------------------------------------------------ properties
-XTypeOK == /\ xpc \in {"run", "joinwake", "decide", "wait", "parked", "clear", "entries", "timers"}
+XTypeOK == /\ xpc \in {"run", "joinwake", "decide", "wait", "parked", "clear", "pollb", "entries", "pset2", "timers"}
            /\ tmo \in {"zero", "timer", "none"} /\ wres \in {"ready", "timedout", "none"}
            /\ opBatch \subseteq Ops
 Real == mut = "none"
@@ -408,9 +426,10 @@ Quiet == /\ \A w \in Wakers : pcW[w] = "done"
 XStuck == Parked /\ ~WillWake /\ Quiet /\ ~TimeoutNow
 NeverStuckX == ~XStuck
 
-\* KNOWN DEVIATION (finding X03-iour-blocking-completion-lost): an entry of the completed channel whose Notify::wake
-\* fell between the two set_awake of Proactor::poll is invisible to flush(): the host sleeps over it
-BlockingDeviation == Driver = "iour" /\ \E j \in Jobs : jobSt[j] = "woke" /\ ~jobTaken[j]
+\* KNOWN DEVIATION (finding X03-blocking-completion-wake-wiped): an entry of the completed channel whose Notify::wake
+\* fell between the two set_awake of Proactor::poll (io_uring: around poll_entries; polling: around the event loop of
+\* with_events) is invisible to flush(): the second set_awake wipes NOTIFIED and the host sleeps over the entry
+BlockingDeviation == \E j \in Jobs : jobSt[j] = "woke" /\ ~jobTaken[j]
 \* KNOWN DEVIATION (finding X03-iour-poll-blocking-skips-drain): poll returned after poll_blocking although the adapter
 \* had already consumed the eventfd signal of completions that are still in the queue (needs an entry whose
 \* set_result wakes nobody, otherwise the owner's wake rescues the round)
